@@ -195,18 +195,19 @@ Definition cache_new (lim : Z) : cres cache :=
    source still has that many calls of c.onEvict *)
 Definition fires (sites : Z) (k : Z) (e : K * V) : evlog K V := if k <=? sites then [e] else [].
 
-(* for newSize > c.limit { ek, ev := c.store.Evict(); c.onEvict(ek, ev); c.count--; newSize -= c.sizeOf(ev) }
+(* for c.size > c.limit-valSize { ek, ev := c.store.Evict(); c.onEvict(ek, ev); c.count--; c.size -= c.sizeOf(ev) }
+   (the loop as repaired by /repo 3977891, F12: the test no longer adds the sizes).
    Every round pops one element of the heap and Evict panics on an empty one, so the number of
    rounds is bounded by the heap length: fuel = S (length heap) always suffices. *)
-Fixpoint put_evict_loop (fuel : nat) (s : lru) (cnt newSize lim : Z) (log : evlog K V) : cres (lru * Z * Z * evlog K V) :=
+Fixpoint put_evict_loop (fuel : nat) (s : lru) (cnt size lim valSize : Z) (log : evlog K V) : cres (lru * Z * Z * evlog K V) :=
   match fuel with
   | O => CFuel
   | S f =>
-    if CacheIdx.put_evict_continue newSize lim then
+    if CacheIdx.put_evict_continue size lim valSize then
       cdo (s', e) <- lru_evict s;
-      put_evict_loop f s' (CacheIdx.put_evict_count cnt) (CacheIdx.put_newsize_evict newSize (sizeOf (snd e))) lim
+      put_evict_loop f s' (CacheIdx.put_evict_count cnt) (CacheIdx.put_evict_size size (sizeOf (snd e))) lim valSize
                      (log ++ fires CacheIdx.put_ncalls_onEvict 2 e)
-    else COk (s, cnt, newSize, log)
+    else COk (s, cnt, size, log)
   end.
 
 Definition cache_put (c : cache) (k : K) (val : V) : cres (cache * bool * evlog K V) :=
@@ -220,11 +221,10 @@ Definition cache_put (c : cache) (k : K) (val : V) : cres (cache * bool * evlog 
          COk (s', CacheIdx.put_replace_size (csize c) (sizeOf old), CacheIdx.put_replace_count (count c),
               fires CacheIdx.put_ncalls_onEvict 1 (k, old))
        else COk (store c, csize c, count c, []));
-    let newSize := CacheIdx.put_newsize_init size1 valSize in
-    cdo (s2, cnt2, newSize2, log2) <-
-      put_evict_loop (S (length (data (access s1)))) s1 cnt1 newSize (limit c) log1;
+    cdo (s2, cnt2, size2, log2) <-
+      put_evict_loop (S (length (data (access s1)))) s1 cnt1 size1 (limit c) valSize log1;
     cdo s3 <- lru_store s2 k val;
-    COk ({| store := s3; csize := CacheIdx.put_final_size newSize2; count := CacheIdx.put_final_count cnt2; limit := limit c |},
+    COk ({| store := s3; csize := CacheIdx.put_final_size size2 valSize; count := CacheIdx.put_final_count cnt2; limit := limit c |},
          CacheIdx.put_stored_result, log2).
 
 Definition cache_get (c : cache) (k : K) : cres (cache * (V * bool)) :=
